@@ -7,7 +7,9 @@ gives deterministic hang detection (a BaseException after 4*len+16 yields).
 """
 import io
 import os
+import signal
 import sys
+import threading
 
 REPO = os.environ.get("VERIF_REPO", "/repo")
 if REPO not in sys.path:
@@ -21,6 +23,17 @@ assert os.path.abspath(sparser.__file__).startswith(os.path.abspath(REPO)), spar
 
 class Hang(BaseException):
     pass
+
+
+class Slow(BaseException):
+    pass
+
+
+WALL_LIMIT = float(os.environ.get("VERIF_PARSE_WALL", "6"))
+
+
+def _alarm(signum, frame):
+    raise Slow()
 
 
 class CountingLexer(sparser.Lexer):
@@ -110,11 +123,26 @@ def run_parse(p, data):
     out = {"cls": "ret", "verdict": None, "error": None, "error_pos": None, "yields": 0, "tree": None}
     p.error = None
     p.error_pos = None
+    timer = threading.current_thread() is threading.main_thread()
+    if timer:
+        # a regular expression that backtracks exponentially never reaches the token counter:
+        # wall-clock watchdog (normal parses of these inputs take well under a millisecond)
+        old = signal.signal(signal.SIGALRM, _alarm)
+        signal.setitimer(signal.ITIMER_REAL, WALL_LIMIT)
     try:
-        r = p.parse(data)
+        try:
+            r = p.parse(data)
+        finally:
+            if timer:
+                signal.setitimer(signal.ITIMER_REAL, 0)
+                signal.signal(signal.SIGALRM, old)
     except Hang:
         out["cls"] = "hang"
         out["yields"] = getattr(p.lexer, "yields", -1)
+        return out
+    except Slow:
+        out["cls"] = "hang"
+        out["exc"] = "no result after %.0f s wall-clock for %d bytes" % (WALL_LIMIT, len(data))
         return out
     except RecursionError:
         out["cls"] = "raise"
